@@ -29,6 +29,7 @@ fn main() {
         Some("scenario") => {
             // prints the generated scenario of one run seed (debugging aid)
             let seed: u64 = args[3].parse().unwrap();
+            driver::pin_to_core(0);
             determinism_seam::reset(seed);
             let (rep, sc) = cases::run_case(&args[2], seed);
             println!("{}", serde_json::to_string(&serde_json::json!({"scenario": sc, "violations": rep.violations, "counters": rep.counters})).unwrap());
